@@ -216,7 +216,9 @@ Definition named_asst (nn : list (node * name)) (a : asst_t) : list (name * nat)
     weight table, product of the factor weights computed by the implementation's factors.
     verdicts: 0 ok; 1 graph not isomorphic to [derived_graph]; 2 assignment not total on the
     graph's nodes; 3 weight product differs from the product of the rule-instance
-    weights; 4 tree not well-formed (harness bug); 10 differs from derive_model; 11 model raised;
+    weights; 4 tree not well-formed (harness bug); 5 the assignment has a key that is not a node of
+    the graph (C15_derive_assignment_exact: defined on the nodes and nowhere else);
+    10 differs from derive_model; 11 model raised;
     12 some value of the assignment is not the value the denotational [derived_asst] gives to
     the name of that node (the Prop proved of the model in C15_derive_assignment);
     20 equal to the model up to dict order *)
@@ -235,6 +237,7 @@ Definition derive_check
     let w := fun (l : elabel) vs => wlookup tab (l_name l) vs in
     if negb (same_upto_naming g nn en d) then 1
     else if negb (forallb (fun v => amem node_eqb a v) (g_nodes g)) then 2
+    else if negb (forallb (fun vy => memb node_eqb (g_nodes g) (fst vy)) a) then 5
     else if negb (nodupb node_eqb (map fst a)
                   && forallb (fun vy => match aget node_eqb nn (fst vy) with
                                         | Some x => memb nv_eqb (derived_asst t) (x, snd vy)
